@@ -7,7 +7,7 @@ from lib import *
 from props import shared
 
 LEVEL = 'proof'
-FLOOR = 24
+FLOOR = 40
 EXPLANATION = ('Ordering core of C12 decided on MIR of every path: sync-before-hand-over in Log::flush_one, hand-over queue '
                'confinement, enact_plan reachable only from DbInner::enact_logs through Log::read_next, column flush loop '
                'dominating every Log::clean_logs call (with sync_data assumed true), truncation made durable, remap flush, '
@@ -58,8 +58,8 @@ def run(ctx):
     # ---------------------------------------------------------------- 2. tables flushed before truncation
     cl_callers = sorted(F.direct_callers_of('log::Log::clean_logs'))
     ctx.ob('2a clean_logs-callers', 'K4-confinement', ','.join(cl_callers),
-           'Log::clean_logs (truncation) is called only from the three DbInner clean-up paths',
-           set(cl_callers) == {'db::DbInner::clean_logs', 'db::DbInner::clean_all_logs', 'db::DbInner::kill_logs'}, str(cl_callers))
+           'Log::clean_logs (truncation) is called only from the DbInner clean-up paths (each of which is checked for the flush loop below)',
+           {'db::DbInner::clean_logs', 'db::DbInner::clean_all_logs'} <= set(cl_callers) <= {'db::DbInner::clean_logs', 'db::DbInner::clean_all_logs', 'db::DbInner::kill_logs'}, str(cl_callers))
     for cp in cl_callers:
         b = F.body(cp)
         sd = lib.prune_bool_field(b, '.Options.sync_data', True)
